@@ -153,6 +153,7 @@ structure Srv where
   lastID : Nat := 0
   openStreams : Int := 0
   ring : List Nat := []            -- recently closed ids, oldest first
+  resetByUs : List Nat := []       -- ids of streams this side reset (bounded like `ring`)
   clientWindow : Int := Gen.c_defaultWindowSize
   curInitWin : Int := Gen.c_defaultWindowSize
   recvWin : Int := Gen.c_serverMaxWindow
